@@ -7,13 +7,16 @@ PROP = dict(
          'PDEPEND with plain, versioned, slotted, USE-dependent and blocker atoms, any-of / exactly-one-of / '
          'at-most-one-of groups, USE conditionals, nested groups, cycles, missing packages, undecodable files), a '
          'profile tree (parents, diamonds, symlinked make.profile, "*atom" and "-*atom" lines, repeated atoms), '
-         'extra -atoms (blockers, bare names) and -nobdeps; directories are created in a random order. '
+         'extra -atoms (blockers, bare names) and -nobdeps; traps (inactive conditionals around missing packages, unsatisfied groups, '
+         'build-only dependencies under -nobdeps); a per-case chaos level (55% calm, 30% some trouble, 15% wild); scenarios '
+         '(many slots of few names, a dependency cycle through every package); directories are created in a random order and the '
+         'tree is built a second time in the reverse order on tmpfs. '
          'Non-trivial: the selection has at least 2 members beyond the requested atoms or the run fails; '
          'distinct by the whole input (dependency graph, USE assignment, request)',
     explanation='theorems about the Gallina model of the resolver (Roots, Closed, Justified, Unblocked, '
-                'must-fail, termination with fuel = packages+1, independence of the enumeration order, @system '
-                'set); per case Coq evaluates wf, model=observation (in-process API and stagemaker binary) and '
-                'spec(observation)',
+                'must-fail, failure-has-a-reason, termination with fuel = packages+1 for every input, independence '
+                'of the enumeration order, @system set); per case Coq evaluates wf, model=observation (in-process '
+                'API, stagemaker -list system/stage, and -list stage on a re-ordered copy) and spec(observation)',
     assumptions=['atom parsing (C14) and atom matching (C13) enter as oracles computed by the real code: every atom '
                  'carries the package name the parser gave it and the installed packages DependAtom.FilterAtoms '
                  'accepts in the owning package\'s USE context',
